@@ -60,8 +60,12 @@ func concurrentSame(w *core.W, key string, n int, f func(i int) string) {
 
 // concurrentSection returns a section that runs the pure operations a property is stated over under
 // concurrentSame. The inputs are drawn from the case's PRNG stream before any goroutine starts.
-func concurrentSection(prop string) section {
-	return section{"concurrent-use", tiered(10, 150), func(w *core.W, j int) {
+func concurrentSection(prop string) section { return concurrentSectionAs(prop, prop, tiered(10, 150)) }
+
+// concurrentSectionAs runs the operations of prop and reports under keyProp (C16 runs them all under
+// the race detector).
+func concurrentSectionAs(prop, keyProp string, n func(string) int) section {
+	return section{"concurrent-use-" + prop, n, func(w *core.W, j int) {
 		registerPrivate()
 		g := model.NewGen(w.Rng(j))
 		g.NoHuge = true
@@ -85,7 +89,7 @@ func concurrentSection(prop string) section {
 			}
 			names = append(names, g.Name().Pres())
 		}
-		key := prop + "/concurrent-use-differs/"
+		key := keyProp + "/concurrent-use-differs/"
 		switch prop {
 		case "C01", "C04", "C08":
 			concurrentSame(w, key+"Unpack-Len-Pack", n, func(i int) string {
@@ -177,6 +181,7 @@ func concurrentSection(prop string) section {
 func hexToB64(b []byte) string {
 	const tbl = "ABCDEFGHIJKLMNOPQRSTUVWXYZabcdefghijklmnopqrstuvwxyz0123456789+/"
 	var sb strings.Builder
+	b = append([]byte(nil), b...) // the caller's octets are shared between goroutines
 	for len(b)%3 != 0 {
 		b = append(b, 0)
 	}
